@@ -148,6 +148,7 @@ pub enum ChunksError {
 /// An iterator that cycles through the adapted iterator infinitely
 pub struct Cycle {
     iter: KIterator,
+    iter_finished: bool,
     cache: Vec<KValue>,
     cycle_index: usize,
 }
@@ -164,6 +165,7 @@ impl Cycle {
 
         Self {
             iter,
+            iter_finished: false,
             cache: Vec::with_capacity(size_hint),
             cycle_index: 0,
         }
@@ -174,6 +176,7 @@ impl KotoIterator for Cycle {
     fn make_copy(&self) -> Result<KIterator> {
         let result = Self {
             iter: self.iter.make_copy()?,
+            iter_finished: self.iter_finished,
             cache: self.cache.clone(),
             cycle_index: self.cycle_index,
         };
@@ -185,15 +188,24 @@ impl Iterator for Cycle {
     type Item = Output;
 
     fn next(&mut self) -> Option<Self::Item> {
-        if let Some(output) = self.iter.next() {
-            match KValue::try_from(output) {
-                Ok(value) => {
-                    self.cache.push(value.clone());
-                    Some(value.into())
+        // Once the input has finished it isn't asked for more output,
+        // it may not be fused (e.g. `zip` will keep consuming its longer input).
+        if !self.iter_finished {
+            match self.iter.next() {
+                Some(output) => {
+                    return match KValue::try_from(output) {
+                        Ok(value) => {
+                            self.cache.push(value.clone());
+                            Some(value.into())
+                        }
+                        Err(error) => Some(Output::Error(error)),
+                    };
                 }
-                Err(error) => Some(Output::Error(error)),
+                None => self.iter_finished = true,
             }
-        } else if self.cache.is_empty() {
+        }
+
+        if self.cache.is_empty() {
             None
         } else {
             if self.cycle_index == self.cache.len() {
